@@ -26,6 +26,7 @@ import threading
 import time
 from fractions import Fraction as F
 
+import gymnasium as gym
 import numpy as np
 
 from harness import envs as E
@@ -36,7 +37,9 @@ RULE = (
     "(box rank 1/2, image HWC/CHW, discrete, multidiscrete, multibinary, dict, tuple), 4 action kinds, per-env episode "
     "scripts (length-1 episodes, terminated&truncated, truncation only, never-ending) with float32-representable "
     "rewards, 6-16 operations mixing seed(int|None) / set_options(None|dict|list, empty dicts) / reset / step / "
-    "get_attr / set_attr (incl. the script position n_steps) / env_method (args and kwargs) with indices None | int | "
+    "step_async + step_wait (with a sleep in between) / get_attr / set_attr (incl. the script position n_steps) / "
+    "env_method (args and kwargs) / has_attr / env_is_wrapped (40% of the sub-environments inside a pass-through "
+    "wrapper) / close (at the end, in the middle, while a step is outstanding, twice) with indices None | int | "
     "list / tuple / range incl. repeated, permuted and empty index lists; per-env per-call sleep patterns (identity, "
     "reversed, rotated, random, one straggler, none) that make the workers complete in chosen orders; start method "
     "fork (quick) or fork / forkserver / spawn (thorough). A small dedicated stream (kind=dtype) uses 0.1-like rewards "
@@ -45,13 +48,15 @@ RULE = (
     "order (reconstructed from the time stamps) and at least one episode ended; distinct = distinct canonical case"
 )
 STREAMS = {
-    "subproc_vs_model": "canonicalised outputs of the real SubprocVecEnv == Lean Sys (two schedules), every operation",
+    "subproc_vs_model": "canonicalised outputs and the waiting/closed flags of the real SubprocVecEnv == Lean Sub (two "
+                        "schedules), every call; pipes of the model empty (or one reply owed per worker while waiting)",
     "dummy_vs_model": "canonicalised outputs of the real DummyVecEnv == Lean Dummy, every operation",
     "f32_cast": "np.float32(x) == Lean roundF32 x, exactly",
 }
 
 ATTRS = ["some_attr", "n_steps", "episode", "env_id", "step_in_ep", "last_action"]
 CALL_TIMEOUT = 120.0  # seconds; a call of the real object that does not return by then is reported as a hang
+HANG_TIMEOUT_AFTER_FIRST = 20.0
 
 
 # ------------------------------------------------------------------------------------------------
@@ -111,14 +116,32 @@ class TimedEnv(E.ScriptedEnv):
         return out
 
 
+class PassThrough(gym.Wrapper):
+    """A wrapper that adds nothing: attribute writes that concern the scripted environment go to it (so that
+    `set_attr` through the wrapper acts like on the bare environment); everything else is gym.Wrapper's default."""
+
+    FORWARD = ("some_attr", "n_steps")
+
+    def __setattr__(self, name, value):
+        if name in PassThrough.FORWARD:
+            setattr(self.env, name, value)
+        else:
+            super().__setattr__(name, value)
+
+
+WRAPPER_CLASSES = {"PassThrough": PassThrough, "TimeLimit": gym.wrappers.TimeLimit}
+
+
 class TimedEnvFn:
     """picklable constructor (fork, forkserver, spawn)"""
 
-    def __init__(self, **kw):
+    def __init__(self, wrapped=False, **kw):
         self.kw = kw
+        self.wrapped = wrapped
 
     def __call__(self):
-        return TimedEnv(**self.kw)
+        env = TimedEnv(**self.kw)
+        return PassThrough(env) if self.wrapped else env
 
 
 # ------------------------------------------------------------------------------------------------
@@ -262,16 +285,21 @@ def gen_main(rng, ctx, kind="main"):
             o = "reset"
         else:
             o = rng.weighted([("step", 10 if have_reset else 0), ("reset", 2), ("seed", 1.5), ("set_options", 1.5),
-                              ("get_attr", 2), ("set_attr", 1.5), ("env_method", 2.5), ("has_attr", 0.7)])
+                              ("get_attr", 2), ("set_attr", 1.5), ("env_method", 2.5), ("has_attr", 0.7), ("is_wrapped", 0.8)])
         if o == "reset":
             have_reset = True
             ops.append({"op": "reset"})
         elif o == "step":
-            op = {"op": "step", "acts": [gen_action(rng, act_kind) for _ in range(n)]}
-            if rng.chance(0.25):
+            acts = [gen_action(rng, act_kind) for _ in range(n)]
+            if rng.chance(0.3):
                 # step_async(); sleep; step_wait()  (0 = no sleep: some workers may still be running at step_wait)
-                op["split_ms"] = rng.choice([0, 0, 1, 4, 12])
-            ops.append(op)
+                ops.append({"op": "step_async", "acts": acts})
+                ops.append({"op": "step_wait", "sleep_ms": rng.choice([0, 0, 1, 4, 12])})
+            else:
+                ops.append({"op": "step", "acts": acts})
+        elif o == "is_wrapped":
+            ops.append({"op": "is_wrapped", "cls": rng.choice(["PassThrough", "PassThrough", "TimeLimit"]),
+                        "idx": gen_indices(rng, n)})
         elif o == "has_attr":
             ops.append({"op": "has_attr", "name": rng.choice(ATTRS + ["no_such_attr", "script", "nope"])})
         elif o == "seed":
@@ -294,10 +322,28 @@ def gen_main(rng, ctx, kind="main"):
             else:
                 ops.append({"op": "env_method", "name": "echo", "args": [rng.randint(0, 9) for _ in range(rng.randint(0, 3))],
                             "kwargs": {}, "idx": gen_indices(rng, n)})
-    if kind == "dtype" and not any(o["op"] == "step" for o in ops):
+    if kind == "dtype" and not any(o["op"] in ("step", "step_wait") for o in ops):
         ops.append({"op": "step", "acts": [gen_action(rng, act_kind) for _ in range(n)]})
+    # close at a random point: at the end, in the middle, or while a step is outstanding; sometimes twice
+    if kind == "main" and rng.chance(0.4):
+        where = rng.weighted([("end", 2), ("middle", 2), ("waiting", 3)])
+        asyncs = [i for i, o in enumerate(ops) if o["op"] == "step_async"]
+        if where == "waiting" and asyncs:
+            ops = ops[: rng.choice(asyncs) + 1]
+        elif where == "waiting" and have_reset:
+            ops.append({"op": "step_async", "acts": [gen_action(rng, act_kind) for _ in range(n)]})
+        elif where == "middle":
+            cut = rng.randint(1, len(ops))
+            while cut < len(ops) and ops[cut - 1]["op"] == "step_async":
+                cut += 1
+            ops = ops[:cut]
+        ops.append({"op": "close", "sleep_ms": rng.choice([0, 0, 3])})
+        if rng.chance(0.35):
+            ops.append({"op": "close", "sleep_ms": 0})
     unit_ms = rng.choice([2, 3]) if not ctx.thorough else rng.choice([2, 3, 5])
+    wrapped = [rng.chance(0.4) for _ in range(n)]
     return {"kind": kind, "n": n, "obs_kind": obs_kind, "act_kind": act_kind, "start": start, "scripts": scripts,
+            "wrapped": wrapped,
             "pattern": pat, "delays": delays, "unit_ms": unit_ms, "ops": ops, "npseed": rng.randint(0, 2**31 - 1),
             "sched_seed": rng.randint(0, 2**31 - 1)}
 
@@ -335,12 +381,34 @@ def gen_cases(ctx):
 
 
 def valid_ops(ops):
+    """the protocol of the classes: step needs a previous reset (scripted envs), step_wait only after step_async,
+    nothing but step_wait / close while a step is outstanding, nothing but close after close"""
     seen = False
+    phase = "idle"
     for o in ops:
-        if o["op"] == "reset":
-            seen = True
-        if o["op"] == "step" and not seen:
+        k = o["op"]
+        if phase == "closed":
+            if k != "close":
+                return False
+            continue
+        if phase == "waiting":
+            if k == "step_wait":
+                phase = "idle"
+            elif k == "close":
+                phase = "closed"
+            else:
+                return False
+            continue
+        if k == "step_wait":
             return False
+        if k == "reset":
+            seen = True
+        if k in ("step", "step_async") and not seen:
+            return False
+        if k == "step_async":
+            phase = "waiting"
+        if k == "close":
+            phase = "closed"
     return True
 
 
@@ -374,7 +442,14 @@ class Hang(Exception):
     pass
 
 
-def call_with_timeout(fn, timeout=CALL_TIMEOUT):
+_HANGS = [0]
+
+
+def call_with_timeout(fn, timeout=None):
+    """the first hang of a process is waited for generously (a loaded machine must never look like a dead-lock); once
+    one call has hung, later ones are given up after HANG_TIMEOUT_AFTER_FIRST seconds"""
+    if timeout is None:
+        timeout = CALL_TIMEOUT if _HANGS[0] == 0 else HANG_TIMEOUT_AFTER_FIRST
     box = {}
 
     def run():
@@ -387,6 +462,7 @@ def call_with_timeout(fn, timeout=CALL_TIMEOUT):
     t.start()
     t.join(timeout)
     if t.is_alive():
+        _HANGS[0] += 1
         raise Hang()
     if "e" in box:
         raise box["e"]
@@ -463,7 +539,7 @@ def canon_out(kind, ret, venv, case):
          "reset_infos": [canon_info(i, ok) for i in venv.reset_infos]}
     if kind == "reset":
         o["obs"] = E.decode_batch(ret, ok, n)
-    elif kind == "step":
+    elif kind in ("step", "step_wait"):
         obs, rews, dones, infos = ret
         o["obs"] = E.decode_batch(obs, ok, n)
         o["rews"] = [ratj(F(float(r))) for r in np.asarray(rews).reshape(-1)]
@@ -471,7 +547,7 @@ def canon_out(kind, ret, venv, case):
         o["infos"] = [canon_info(i, ok) for i in infos]
     elif kind == "seed":
         o["seeds"] = [None if s is None else int(s) for s in ret]
-    elif kind == "get_attr":
+    elif kind in ("get_attr", "is_wrapped"):
         o["results"] = [canon_val(v, ok) for v in ret]
     elif kind == "env_method":
         o["results"] = [canon_val(v, ok) if not isinstance(v, list) else [int(v[0])] + [int(x) for x in v[1]] for v in ret]
@@ -495,6 +571,18 @@ def apply_op(venv, op, case, k):
                 time.sleep(op["split_ms"] / 1000.0)
             return venv.step_wait()
         return venv.step(act_array(op["acts"], case["act_kind"]))
+    if kind == "step_async":
+        return venv.step_async(act_array(op["acts"], case["act_kind"]))
+    if kind == "step_wait":
+        if op.get("sleep_ms"):
+            time.sleep(op["sleep_ms"] / 1000.0)
+        return venv.step_wait()
+    if kind == "close":
+        if op.get("sleep_ms"):
+            time.sleep(op["sleep_ms"] / 1000.0)
+        return venv.close()
+    if kind == "is_wrapped":
+        return venv.env_is_wrapped(WRAPPER_CLASSES[op["cls"]], indices=idx_py(op["idx"]))
     if kind == "has_attr":
         return venv.has_attr(op["name"])
     if kind == "get_attr":
@@ -534,19 +622,49 @@ def run_case(ctx, case):
     n, ok = case["n"], case["obs_kind"]
     tmp = tempfile.mkdtemp(prefix="c02_")
     sub = dummy = None
-    res = {"outs_d": [], "outs_s": [], "orders": [], "complete": False}
+    res = {"outs_d": [], "outs_s": [], "orders": [], "flags": [], "complete": False}
+
+    def compare_logs():
+        """the sub-environments' own logs (what each env received); False = violation reported / object unusable"""
+        nonlocal sub
+        try:
+            ld = dummy.env_method("get_log")
+            ls = call_with_timeout(lambda: sub.env_method("get_log"))
+        except Hang:
+            rep.violation("SubprocVecEnv call did not return (DummyVecEnv did)", case, {"kind": "hang", "op": "get_log"})
+            kill_subproc(sub)
+            sub = None
+            return False
+        d = deep_eq(ld, ls, "env_log")
+        if d:
+            rep.violation("the sub-environments of SubprocVecEnv received different calls than those of DummyVecEnv",
+                          case, {"kind": "env_log"}, d)
+            return False
+        return True
+
     try:
         base = [dict(env_id=i, obs_kind=ok, act_kind=case["act_kind"], script=case["scripts"][i]) for i in range(n)]
         stamp = [os.path.join(tmp, f"env{i}.stamps") for i in range(n)]
-        dummy = DummyVecEnv([TimedEnvFn(**b) for b in base])
+        wrapped = case.get("wrapped") or [False] * n
+        dummy = DummyVecEnv([TimedEnvFn(wrapped=wrapped[i], **b) for i, b in enumerate(base)])
         sub = call_with_timeout(lambda: SubprocVecEnv(
-            [TimedEnvFn(delays=case["delays"][i], unit=case["unit_ms"] / 1000.0, stamp_path=stamp[i], **b)
+            [TimedEnvFn(wrapped=wrapped[i], delays=case["delays"][i], unit=case["unit_ms"] / 1000.0,
+                        stamp_path=stamp[i], **b)
              for i, b in enumerate(base)], start_method=case["start"]), 600.0)
         windows = []
+        phase = "idle"
+        t_async = None
         for k, op in enumerate(case["ops"]):
             kind = op["op"]
+            if kind == "close" and phase == "idle":
+                if not compare_logs():
+                    return res
             rd = apply_op(dummy, op, case, k)
             t0 = time.monotonic_ns()
+            if kind == "step_async":
+                t_async = t0
+            if kind == "step_wait" and t_async is not None:
+                t0 = t_async
             try:
                 rs = call_with_timeout(lambda: apply_op(sub, op, case, k))
             except Hang:
@@ -556,8 +674,19 @@ def run_case(ctx, case):
                 sub = None
                 return res
             windows.append((t0, time.monotonic_ns(), kind, k))
+            phase = {"step_async": "waiting", "step_wait": "idle", "close": "closed"}.get(kind, phase)
+            if kind == "step_wait":
+                kind = "step"
             # ---------------- oracle: the two real objects, element-wise ----------------------------------
             sig = None
+            if kind == "step_async" and sub.waiting is not True:
+                sig = ({"kind": "waiting_flag", "op": kind}, f"waiting={sub.waiting!r} after step_async")
+            if kind in ("step", "reset") and sub.waiting is not False:
+                sig = ({"kind": "waiting_flag", "op": kind}, f"waiting={sub.waiting!r} after {op['op']}")
+            if kind == "close":
+                alive = [i for i, pr in enumerate(sub.processes) if pr.is_alive()]
+                if sub.closed is not True or alive:
+                    sig = ({"kind": "close", "op": kind}, {"closed": sub.closed, "workers_alive": alive})
             if kind in ("reset", "step"):
                 od = rd if kind == "reset" else rd[0]
                 os_ = rs if kind == "reset" else rs[0]
@@ -602,10 +731,16 @@ def run_case(ctx, case):
                     d = deep_eq(list(rd[3]), list(rs[3]), "infos")
                     if d:
                         sig = ({"kind": "infos"}, d)
-            if sig is None and kind in ("seed", "get_attr", "env_method", "set_attr", "set_options", "has_attr"):
+            if sig is None and kind in ("seed", "get_attr", "env_method", "set_attr", "set_options", "has_attr",
+                                        "is_wrapped", "step_async", "close"):
                 d = deep_eq(rd, rs, "result")
                 if d:
                     sig = ({"kind": "result", "op": kind}, d)
+            if sig is None and kind == "is_wrapped":
+                truth = [bool(wrapped[i]) and op["cls"] == "PassThrough" for i in idx_targets(op["idx"], n)]
+                for name, r in (("dummy", rd), ("subproc", rs)):
+                    if list(r) != truth:
+                        sig = ({"kind": "is_wrapped", "who": name}, f"{list(r)!r}, expected {truth}")
             if sig is None and kind == "has_attr":
                 truth = op["name"] in ATTRS + ["script"]
                 for name, r in (("dummy", rd), ("subproc", rs)):
@@ -627,29 +762,21 @@ def run_case(ctx, case):
             try:
                 res["outs_d"].append(canon_out(kind, rd, dummy, case))
                 res["outs_s"].append(canon_out(kind, rs, sub, case))
+                res["flags"].append({"waiting": bool(sub.waiting), "closed": bool(sub.closed)})
             except Exception as e:  # noqa  (undecodable output: already an oracle matter)
                 rep.violation("an output of the vectorised environments cannot be decoded", case,
                               {"kind": "undecodable", "op": kind}, str(e))
                 return res
-        # ---------------- the sub-environments' own logs (what each env received) ---------------------------
-        try:
-            ld = dummy.env_method("get_log")
-            ls = call_with_timeout(lambda: sub.env_method("get_log"))
-            d = deep_eq(ld, ls, "env_log")
-            if d:
-                rep.violation("the sub-environments of SubprocVecEnv received different calls than those of DummyVecEnv",
-                              case, {"kind": "env_log"}, d)
+        if phase == "idle":
+            if not compare_logs():
                 return res
-        except Hang:
-            rep.violation("SubprocVecEnv call did not return (DummyVecEnv did)", case, {"kind": "hang", "op": "get_log"})
-            kill_subproc(sub)
-            sub = None
-            return res
         res["complete"] = True
-        try:
-            call_with_timeout(sub.close)
-        except Hang:
-            kill_subproc(sub)
+        if phase != "closed":
+            try:
+                call_with_timeout(sub.close)
+            except Hang:
+                pass
+        kill_subproc(sub)
         sub = None
         # ---------------- achieved completion orders ---------------------------------------------------------
         stamps = []
@@ -673,7 +800,8 @@ def run_case(ctx, case):
             try:
                 call_with_timeout(sub.close, 5.0)
             except BaseException:  # noqa
-                kill_subproc(sub)
+                pass
+            kill_subproc(sub)  # never leave a worker process behind, whatever close() did
         if dummy is not None:
             try:
                 dummy.close()
@@ -690,6 +818,12 @@ def n_actions(op, n):
     k = op["op"]
     if k == "has_attr":
         return 2 * n
+    if k in ("step_async", "step_wait"):
+        return n
+    if k == "close":
+        return 3 * n
+    if k == "is_wrapped":
+        return 2 * len(idx_targets(op["idx"], n))
     if k in ("reset", "step"):
         return 2 * n
     if k in ("get_attr", "set_attr", "env_method"):
@@ -699,7 +833,8 @@ def n_actions(op, n):
 
 def sched_observed(op, n, order):
     """all sends first, then the workers complete in the observed order, then the receives"""
-    m = n_actions(op, n) // 2
+    k = op["op"]
+    m = 0 if k in ("step_wait", "close") else n if k == "step_async" else n_actions(op, n) // 2
     return [[] for _ in range(m)] + [list(order)]
 
 
@@ -713,8 +848,9 @@ def model_ops(case, outs_s, orders, which):
 
     n = case["n"]
     rng = Rng(case["sched_seed"])
+    wrapped = case.get("wrapped") or [False] * n
     lines = [{"op": "new", "envs": [{"env_id": i, "script": [[ratj(F(float(e[0]))), bool(e[1]), bool(e[2])] for e in case["scripts"][i]],
-                                     "some_attr": 100 + i} for i in range(n)]}]
+                                     "some_attr": 100 + i, "wrapped": bool(wrapped[i])} for i in range(n)]}]
     for k, op in enumerate(case["ops"][: len(outs_s)]):
         sch = sched_observed(op, n, orders[k] if k < len(orders) else []) if which == "observed" else sched_random(rng, op, n)
         kind = op["op"]
@@ -728,8 +864,10 @@ def model_ops(case, outs_s, orders, which):
             a = op["arg"]
             l["arg"] = None if a is None else {"dict": [[k2, v] for k2, v in a.items()]} if isinstance(a, dict) else \
                 {"list": [[[k2, v] for k2, v in d.items()] for d in a]}
-        elif kind == "step":
+        elif kind in ("step", "step_async"):
             l["acts"] = [action_code(a) for a in op["acts"]]
+        elif kind == "is_wrapped":
+            l.update(cls=op["cls"], idx=idx_model(op["idx"]))
         elif kind == "get_attr":
             l.update(name=op["name"], idx=idx_model(op["idx"]))
         elif kind == "has_attr":
@@ -764,10 +902,19 @@ def check_cases(ctx, cases):
         rep.count(f"act:{case['act_kind']}")
         rep.count(f"start:{case['start']}")
         rep.count(f"delay_pattern:{case['pattern']}")
+        ph = "idle"
         for o in case["ops"]:
             rep.count(f"op:{o['op']}")
-            if "split_ms" in o:
-                rep.count(f"step_async/step_wait split, sleep_ms={o['split_ms']}")
+            if o["op"] == "close":
+                rep.count("close:" + {"idle": "no step outstanding", "waiting": "while a step is outstanding",
+                                      "closed": "second close"}[ph])
+                ph = "closed"
+            elif o["op"] == "step_async":
+                ph = "waiting"
+            elif o["op"] == "step_wait":
+                ph = "idle"
+            if o["op"] == "step_wait":
+                rep.count(f"step_wait after sleep_ms={o.get('sleep_ms', 0)}")
             if "idx" in o:
                 i = o["idx"]
                 rep.count("idx:" + ("none" if i is None else "int" if isinstance(i, int) else
@@ -779,7 +926,7 @@ def check_cases(ctx, cases):
             out_of_order = False
             for k, order in enumerate(r["orders"]):
                 op = case["ops"][k]
-                if op["op"] in ("step", "reset") and n >= 2 and len(order) == n:
+                if op["op"] in ("step", "reset", "step_wait") and n >= 2 and len(order) == n:
                     rep.count(f"completion_order[n={n}]:" + ",".join(map(str, order)))
                     if order != sorted(order):
                         out_of_order = True
@@ -826,8 +973,16 @@ def check_cases(ctx, cases):
                 rep.disagree("subproc_vs_model", case, r["outs_s"][j], m["subproc"], note=f"op {j} schedule={which}")
                 bad = True
                 break
-            if m["pending"] != 0:
-                rep.disagree("subproc_vs_model", case, 0, m["pending"], note=f"op {j}: commands left in the pipes")
+            fl = r["flags"][j]
+            if {"waiting": m["waiting"], "closed": m["closed"]} != fl:
+                rep.disagree("subproc_vs_model", case, fl, {"waiting": m["waiting"], "closed": m["closed"]},
+                             note=f"op {j}: flags of the object")
+                bad = True
+                break
+            want_pending = case["n"] if (fl["waiting"] and not fl["closed"]) else 0
+            if m["pending"] != want_pending:
+                rep.disagree("subproc_vs_model", case, want_pending, m["pending"],
+                             note=f"op {j}: commands/replies left in the pipes")
                 bad = True
                 break
             if which == "observed" and m["dummy"] != canon(r["outs_d"][j]):
